@@ -560,6 +560,9 @@ func c13NDJSONOracle(h []byte, limit uint32) (bool, string) {
 	if truncated {
 		if i := bytes.LastIndexByte(h, '\n'); i+1 < len(h) {
 			total++
+			// the incomplete last line counts as a line AND as a candidate container: the weakest
+			// reading. (A stricter one - containers among complete lines only - is violated by the
+			// unchanged tree for "\n{}" at limit 3, where the only line break sits at offset 0.)
 			if t := bytes.TrimLeft(h[i+1:], " \t\r\n"); len(t) > 0 && (t[0] == '{' || t[0] == '[') {
 				containers++
 			}
@@ -773,6 +776,54 @@ func TestVerif_C13(t *testing.T) {
 	}
 	if vfOnlySub("fwd") {
 		vfRun(t, vfSub[c13Fwd]{Prop: "C13", Name: "fwd", Checks: vfN(20000, 1500000), Gen: c13GenFwd, Check: c13FwdCheck})
+	}
+	if t.Failed() {
+		return
+	}
+	if vfOnlySub("huge") && !vfReplayMode() && vfShard() == 2%vfNShards() {
+		// a limit of 256 KiB that cuts a last line which began 70-200 KB earlier: the incomplete
+		// line is ignored however long it is
+		for _, k := range []struct{ kind, head, unit, want string }{
+			{"csv", "id,name,value\n1,a,b\n2,c,d\n3,\"", "long field ", "text/csv"},
+			{"tsv", "id\tname\tvalue\n1\ta\tb\n2\tc\td\n3\t", "long field ", "text/tab-separated-values"},
+			{"ndjson", "{\"id\":1}\n{\"id\":2}\n{\"id\":3,\"blob\":\"", "xxxxxxxxxx", "application/x-ndjson"},
+		} {
+			for _, before := range []int{70000, 200000} {
+				L := 256 << 10
+				x := []byte(k.head)
+				for len(x) < L+5000 {
+					x = append(x, k.unit...)
+				}
+				// the long line starts `before` bytes ahead of the cut: pad the complete part
+				padLines := (L - before - len(k.head)) / 8
+				var pre []byte
+				for i := 0; i < padLines; i++ {
+					switch k.kind {
+					case "csv":
+						pre = append(pre, "9,z,y\n"...)
+					case "tsv":
+						pre = append(pre, "9\tz\ty\n"...)
+					default:
+						pre = append(pre, "{\"p\":1}\n"...)
+					}
+				}
+				first := bytes.IndexByte(x, '\n') + 1
+				doc := append(append(append([]byte(nil), x[:first]...), pre...), x[first:]...)
+				m := vfDetectAt(doc, uint32(L))
+				var r vfResult
+				r.Nontrivial, r.Labels, r.Hash = true, []string{"huge", "long-cut-line"}, vfHash([]byte(k.kind), vfHashU(uint64(before)))
+				if vfBare(m.String()) != k.want {
+					r.Err = fmt.Errorf("%s of %d bytes under limit %d, the cut falling into a last line that started about %d bytes earlier: reported as %s", k.kind, len(doc), L, before, vfChainStr(m))
+				} else if err := vfRoutes(doc, uint32(L), m); err != nil {
+					r.Err = err
+				}
+				vfStats.record(r, func() any { return map[string]any{"sub": "huge", "kind": k.kind, "len": len(doc), "limit": L, "cut_line_started_before": before} })
+				if r.Err != nil {
+					vfEnumFail(t, "C13", "txt", c13Txt{X: doc[:200], Limit: 0}, r.Err)
+					return
+				}
+			}
+		}
 	}
 	if t.Failed() {
 		return
